@@ -41,7 +41,7 @@ var cliPrograms = map[string]string{
 }
 
 var cliFixtures = []map[string]string{
-	{"a.txt": "ab 12 ab3\nxyz ab\n", "b.txt": "12 ab", "c.md": "ab ab", "empty.txt": "", "sub/x.txt": "ab in sub ab7", "sub/y.md": "ab"},
+	{"a.txt": "ab 12 ab3\nxyz ab\n", "b.txt": "12 ab% 50%d ab%s", "c.md": "ab ab", "ln.txt": "-> sub/x.txt", "empty.txt": "", "sub/x.txt": "ab in sub ab7", "sub/y.md": "ab"},
 	{"a.txt": "no match here\n", "b.txt": "\"quoted\" ab \\ <é>\nab\x1b[0m ab\x01 ab\x7f\tab\n", "notes.md": "ab", "sub/x.txt": "nothing", "sub/deep/z.txt": "ab"},
 }
 
@@ -126,7 +126,15 @@ func checkCLICase(c CLICase) (sig, what string, nmatch int) {
 	}
 	for n, data := range cliFixtures[c.Dir%len(cliFixtures)] {
 		os.MkdirAll(filepath.Dir(filepath.Join(dir, n)), 0o755)
+		if strings.HasPrefix(data, "-> ") {
+			continue
+		}
 		os.WriteFile(filepath.Join(dir, n), []byte(data), 0o644)
+	}
+	for n, data := range cliFixtures[c.Dir%len(cliFixtures)] {
+		if strings.HasPrefix(data, "-> ") {
+			os.Symlink(data[3:], filepath.Join(dir, n)) // a symbolic link to a file is a file
+		}
 	}
 	os.WriteFile(filepath.Join(dir, "prog.vore"), []byte(cliPrograms[c.Program]), 0o644)
 	if c.StaleSink {
@@ -282,6 +290,16 @@ func checkCLICase(c CLICase) (sig, what string, nmatch int) {
 			allowed[target] = true
 			if got, ok := after[target]; !ok || got != b.String() {
 				return "replace-mode-effect", fmt.Sprintf("%s: %s holds %s, the %s-mode result is %s", desc, target, clip(got), mode, clip(b.String())), len(want)
+			}
+		}
+	}
+	// a symbolic link and the file it points to are two names of one content: when
+	// one of them may change, so may the other
+	for n, data := range cliFixtures[c.Dir%len(cliFixtures)] {
+		if strings.HasPrefix(data, "-> ") {
+			t := filepath.Clean(filepath.Join(filepath.Dir(n), data[3:]))
+			if allowed[n] || allowed[t] {
+				allowed[n], allowed[t] = true, true
 			}
 		}
 	}
